@@ -18,7 +18,7 @@ def _build_test_binary(ctx, harness_dirs=None, pkg=None, tags="verif", timeout=1
 CFG = dict(
     imports=["From Verif.C24 Require Import Model Spec Sender Spec2."],
     checker="check_case2",
-    n=dict(quick=40, thorough=1500),
+    n=dict(quick=40, thorough=480),
     shard=8,
     driver_args=lambda ctx, n, seed: ["-test.run", "^TestVerifC24$", "-test.count=1", "-verif.n", n, "-verif.seed", seed],
     rule="each case: one real snapcache.Cache (MaxBatchSize 1..100) fed event lists (update lists incl. unchanged values, "
